@@ -74,7 +74,7 @@ Theorem cw_create_ok_complete_m st ty full nc c eff deps st' :
   cw_flags_of st' (ty, full) =
     {| fl_obj := true; fl_active := true; fl_runtime := true;
        fl_item := (if nc then cw_kmem (ty, full) (cs_items st) else true); fl_file := true |} /\
-  cs_objs st' = {| co_key := (ty, full); co_runtime := true; co_deps := deps |} :: cs_objs st /\
+  cs_objs st' = {| co_key := (ty, full); co_pkg := cw_origin_api; co_deps := deps |} :: cs_objs st /\
   cs_files st' = ((ty, full), c) :: cs_files st.
 Proof.
   intros Hi. unfold cw_create_m. destruct (cw_find (ty, full) st) eqn:Hf; [intros H; inversion H|].
@@ -97,7 +97,7 @@ Theorem cw_create_ok_complete st ty full nc c eff deps st' :
   cw_flags_of st' (ty, full) =
     {| fl_obj := true; fl_active := true; fl_runtime := true;
        fl_item := (if nc then cw_kmem (ty, full) (cs_items st) else true); fl_file := true |} /\
-  cs_objs st' = {| co_key := (ty, full); co_runtime := true; co_deps := deps |} :: cs_objs st /\
+  cs_objs st' = {| co_key := (ty, full); co_pkg := cw_origin_api; co_deps := deps |} :: cs_objs st /\
   cs_files st' = ((ty, full), c) :: cs_files st.
 Proof. unfold cw_create. rewrite cw_precheck_fact. apply cw_create_ok_complete_m. Qed.
 
@@ -196,11 +196,13 @@ Theorem cw_create_unique st ty full nc c o st' r :
   cw_unique st -> cw_create st ty full nc c o = (st', r) -> cw_unique st'.
 Proof. apply cw_create_unique_m. Qed.
 
-Theorem cw_static_unique st k nc deps : cw_unique st -> cw_unique (cw_add_static st k nc deps).
+Theorem cw_loaded_unique st k nc deps orig c : cw_unique st -> cw_unique (cw_add_loaded st k nc deps orig c).
 Proof.
-  unfold cw_unique, cw_add_static. intros Hu. destruct (cw_find k st) eqn:Hf; [exact Hu|].
+  unfold cw_unique, cw_add_loaded. intros Hu. destruct (cw_find k st) eqn:Hf; [exact Hu|].
   cbn [cs_objs map co_key]. constructor; [apply cw_find_none_notin; exact Hf|exact Hu].
 Qed.
+Theorem cw_static_unique st k nc deps : cw_unique st -> cw_unique (cw_add_static st k nc deps).
+Proof. apply cw_loaded_unique. Qed.
 
 Lemma cw_nodup_map_filter (p : cw_obj -> bool) l : NoDup (map co_key l) -> NoDup (map co_key (filter p l)).
 Proof.
